@@ -653,7 +653,7 @@ func execC13(t *testing.T, w *core.World, p *run.Plan, r *run.Result) {
 	for b := 1; b <= nblocks; b++ {
 		b := b
 		at := blockAt(b)
-		w.AtAbs(at, fmt.Sprintf("block %d", head0+b), func() { globalHead = uint32(head0 + b) })
+		w.AtAbs(at, fmt.Sprintf("block %d", head0+b), func() { mu.Lock(); globalHead = uint32(head0 + b); mu.Unlock() })
 		for i := 0; i < ns; i++ {
 			i := i
 			lag := time.Duration(p.Get(fmt.Sprintf("s%d_lag_ms", i), 0)) * time.Millisecond
@@ -922,9 +922,12 @@ func execC13(t *testing.T, w *core.World, p *run.Plan, r *run.Result) {
 		at := drainStart + time.Duration(k)*blockIv
 		lastDrainBlock = at
 		w.AtAbs(at, "drain block", func() {
+			mu.Lock()
 			globalHead++
+			gh := globalHead
+			mu.Unlock()
 			for i := range servers {
-				servers[i].SetHead(globalHead)
+				servers[i].SetHead(gh)
 			}
 		})
 	}
